@@ -15,7 +15,7 @@ import numpy as np
 
 from .. import datagen, refmodel, world
 from ..driver import clone, seeds_for
-from ..util import digest
+from ..util import digest, exc_is_domain
 from ..worlds import confidence as W
 from ..worlds import pipeline as P
 
@@ -331,6 +331,10 @@ def run_scenario(scn, workdir):
         out.update(status="uninformative", message=f"degenerate level ({degenerate}); PEP estimation domain")
         return out
     if res.exc is not None:
+        if exc_is_domain(res.exc) and "peps" in (res.err_sig() or {}).get("site", ""):
+            probes["degenerate_level"] = 1
+            out.update(status="uninformative", message=f"PEP estimation failed on this score distribution: {res.error}"[:200])
+            return out
         return viol("run_failed", f"assign_confidence failed on a well-formed input: {res.error}", **res.err_sig())
 
     prefixes = conf.get("prefixes") or [None] * len(tables)
@@ -448,6 +452,9 @@ def _run_rollup_tool(scn, tables, scores, workdir):
             out.update(status="uninformative", message=f"degenerate rollup level {lvname}")
             return out
     if res.exc is not None:
+        if exc_is_domain(res.exc) and "peps" in (res.err_sig() or {}).get("site", ""):
+            out.update(status="uninformative", message=f"PEP estimation failed on this score distribution: {res.error}"[:200])
+            return out
         return viol("run_failed", f"brew_rollup failed: {res.error}", **res.err_sig())
     for col, lvname in lv_cols:
         best = {}
